@@ -72,6 +72,8 @@ def run(ctx):
     """returns the list of broken proof obligations (the caller reports them)."""
     broken = ctx.prove(PROPS)
     quick = ctx.tier == "quick"
+    if not quick:
+        broken += ctx.leanchecker(PROPS)
     drv = ctx.ensure_pplv("pplv_polyops")
     h = ctx.compile_harness("c02_rows.cc")
     wd = os.path.join(BUILD, "run-%s-rows-%d" % (ctx.pid, os.getpid()))
